@@ -9,11 +9,16 @@
 
     [ISet] (Proofs/StripedConcSpec.v) is the sequential set of items (key, node owner), one item per key;
     [hist_of] reads the history off the "inv"/"ret" events of a trace; [tholder tr i] is the holder of cell
-    lock i according to the exchange / store events of the trace. *)
+    lock i according to the exchange / store events of the trace.
+
+    CuckooSet: [CuckooConcInv.dropped tr] says that the trace contains the ghost event that the model emits where
+    CuckooSet::resize() falls through without re-inserting an item (the sequential defect of property C17); the
+    linearizability theorem is for traces without it, the no-duplicate theorem is unconditional. *)
 From Coq Require Import ZArith List String Bool.
 From LV Require Import Base.Conc Base.Events Base.Lin Spec.Specs
      Model.StripingPolicy Model.StripedConc Proofs.StripedConcSpec Proofs.StripedConcProofs
      Proofs.StripedConcRefInv Proofs.StripedConcRefProofs.
+From LV Require Model.CuckooConc Proofs.CuckooConcInv Proofs.CuckooConcProofs.
 Import ListNotations.
 Local Open Scope nat_scope.
 
@@ -101,3 +106,69 @@ Example C16_striped_refinable_nonvacuous :
   List.length (filter (fun te => match snd te with EvAcc KSt [3%Z] _ => true | _ => false end) (fst r)) = 1 /\
   List.length (hist_of (fst r)) = 6.
 Proof. vm_compute. repeat split. Qed.
+
+(** ** CuckooSet, lock-striping policy (cuckoo::striping<>) *)
+
+(** [cuckoo_linearizable], striping policy: every concurrent history of insert (with or without functor), update,
+    unlink, erase (with or without functor, erase_with), find / contains (and _with) on the model — including
+    histories in which other threads relocate items and resize the tables — is linearizable to the sequential
+    set, provided resize() never dropped an item (C17).  The statement for both policies is
+    [CuckooConcProofs.cuckoo_linearizable_statement]; the refinable policy is not proved. *)
+Theorem C16_cuckoo_linearizable_striping :
+  forall cf, CuckooConc.c_pol cf = CuckooConc.Striping -> 0 < CuckooConc.c_nl cf ->
+  forall ths (c : Conc.config CuckooConc.G CuckooConc.V ev), Conc.reach (CuckooConc.init_cfg cf ths) c ->
+    ~ CuckooConcInv.dropped (Conc.trace c) -> linearizable ISet (hist_of (Conc.trace c)).
+Proof. exact CuckooConcProofs.cuckoo_linearizable_partial. Qed.
+Print Assumptions C16_cuckoo_linearizable_striping.
+
+(** [cuckoo_nodup], striping policy, unconditional: at every reachable configuration every probe set has distinct
+    keys, an item is only in a probe set that its own hash selects in the current table, no key is in both
+    tables — so the keys of all items of the two tables are distinct. *)
+Theorem C16_cuckoo_nodup_striping :
+  forall cf, CuckooConc.c_pol cf = CuckooConc.Striping -> 0 < CuckooConc.c_nl cf ->
+  forall ths (c : Conc.config CuckooConc.G CuckooConc.V ev), Conc.reach (CuckooConc.init_cfg cf ths) c ->
+    let g := Conc.shared c in
+    (forall tb b, NoDup (keys (CuckooConcInv.T g tb b))) /\
+    (forall tb b x, tb < 2 -> In x (CuckooConcInv.T g tb b) ->
+        CuckooConc.hsel (CuckooConc.hashes cf (fst x)) tb mod S (CuckooConc.mask g) = b) /\
+    (forall b b' x y, In x (CuckooConcInv.T g 0 b) -> In y (CuckooConcInv.T g 1 b') -> fst x <> fst y) /\
+    NoDup (keys (CuckooConcInv.all_items g)).
+Proof. exact CuckooConcProofs.cuckoo_nodup_partial. Qed.
+Print Assumptions C16_cuckoo_nodup_striping.
+
+(** [cuckoo_cell_locks_stable]: at every reachable configuration there is an assignment [a] of (multi)sets of
+    reentrant locks to the threads such that a lock word is non-zero iff some thread has the lock, no two threads
+    have the same lock, the bucket of a hash in the current tables belongs to the stripe of the lock taken for
+    it, and a thread that may access probe set (tb, b) ([auth]: it holds a table-0 lock and the lock of the
+    stripe of b in table tb, or every table-0 lock) sees no step of another thread change the bucket mask or
+    that probe set. *)
+Theorem C16_cuckoo_cell_locks_stable :
+  forall cf, CuckooConc.c_pol cf = CuckooConc.Striping -> 0 < CuckooConc.c_nl cf ->
+  forall ths (c : Conc.config CuckooConc.G CuckooConc.V ev), Conc.reach (CuckooConc.init_cfg cf ths) c ->
+    exists a : CuckooConcInv.Aux,
+      (forall l, CuckooConc.rspin (Conc.shared c) l <> 0 <-> exists t, In l (CuckooConcInv.held a t)) /\
+      (forall t t' l, In l (CuckooConcInv.held a t) -> In l (CuckooConcInv.held a t') -> t = t') /\
+      (forall h, (h mod S (CuckooConc.mask (Conc.shared c))) mod CuckooConc.c_nl cf = h mod CuckooConc.c_nl cf) /\
+      (forall t' c', Conc.step_cfg c t' = Some c' ->
+         forall t tb b, t <> t' -> tb < 2 -> CuckooConcInv.auth cf (CuckooConcInv.a_view a t) tb b ->
+           CuckooConc.mask (Conc.shared c') = CuckooConc.mask (Conc.shared c) /\
+           CuckooConcInv.T (Conc.shared c') tb b = CuckooConcInv.T (Conc.shared c) tb b).
+Proof. exact CuckooConcProofs.cuckoo_cell_locks_stable_thm. Qed.
+Print Assumptions C16_cuckoo_cell_locks_stable.
+
+(** non-vacuity: two threads, two buckets per table, probe sets of two items; thread 0 inserts 0, 2, 4, 6 (they
+    collide), which relocates items and then resizes the tables (one store to the mask) while thread 1 inserts 1
+    and looks for 0; nothing is dropped, all seven operations complete *)
+Example C16_cuckoo_striping_nonvacuous :
+  let r := CuckooConc.run_case [0; 2; 2; 0; 0; 1; 6; 400]%Z
+             [[[1;0;0;0]%Z; [1;2;0;0]%Z; [1;4;0;0]%Z; [1;6;0;0]%Z; [8;2;0;0]%Z]; [[1;1;0;0]%Z; [8;0;0;0]%Z]]
+             [0;1;1;0;1;0;1]%nat 4000 in
+  snd r = true /\
+  List.length (filter (fun te => match snd te with EvAcc KSt [6%Z] _ => true | _ => false end) (fst r)) = 1 /\
+  ~ CuckooConcInv.dropped (fst r) /\
+  List.length (hist_of (fst r)) = 14.
+Proof.
+  cbv zeta. split; [vm_compute; reflexivity|]. split; [vm_compute; reflexivity|].
+  split; [apply CuckooConcProofs.no_drop_events; vm_compute; reflexivity|vm_compute; reflexivity].
+Qed.
+
